@@ -1,9 +1,12 @@
 package main
 
 import (
+	"encoding/json"
 	"fmt"
 	"go/token"
 	"go/types"
+	"os"
+	"path/filepath"
 	"sort"
 	"strings"
 
@@ -766,4 +769,211 @@ func ruleUnifiedHeaderSize(c *Ctx, r *Report) {
 		r.Check(good, rule, short(s.Fn), c.ipos(call), "header size from len(parsed header.ConnectionID)", "the unified header's wire size is computed from something other than the connection ID of the parsed header ("+shapeOf(call.Call.Args[1], 0)+"): records without a connection ID on the wire are cut at the wrong place")
 	}
 	r.Floor(rule, n, 2)
+}
+
+// ruleLengthNarrowing (C18): where an encoder narrows an integer to the 8- or 16-bit width of a
+// wire length field, and the function itself checks that quantity against a bound (a stated
+// belief that it fits), the checks in force must actually imply that the narrowing is lossless:
+// 0 <= x <= max of the field, proved by the linear-inequality engine with loop invariants. A check
+// that bounds the wrong sum lets a length wrap, and the decoder rejects (or mis-frames) what the
+// encoder produced. Narrowings of quantities the function never compares with anything are
+// listed as information only: their bound is the caller's business and not decided here.
+func ruleLengthNarrowing(c *Ctx, r *Report) {
+	const rule = "length-narrowing"
+	c.boundsInit()
+	narrowMode = true
+	defer func() { narrowMode = false }()
+	n, related, unrel := 0, 0, 0
+	wasProved := map[string]bool{}
+	if b, err := os.ReadFile(filepath.Join(c.VerifDir, "spec", "narrowing_baseline.json")); err == nil {
+		var t struct {
+			Proved []string `json:"proved"`
+		}
+		if json.Unmarshal(b, &t) == nil {
+			for _, k := range t.Proved {
+				wasProved[k] = true
+			}
+		}
+	}
+	if len(wasProved) == 0 {
+		r.Unk(rule, "baseline", "", "spec/narrowing_baseline.json missing or empty")
+	}
+	for _, fn := range c.Fns {
+		if fn.Pkg == nil || len(fn.Blocks) == 0 {
+			continue
+		}
+		pp := fn.Pkg.Pkg.Path()
+		if !strings.Contains(pp, "/pkg/protocol") {
+			continue
+		}
+		for _, s := range boundsAnalyse(fn, c.Fset) {
+			n++
+			r.Sites++
+			key := fmt.Sprintf("%s|%s|%s", short(fn), s.what, normSiteShape(s.ins))
+			if s.ok {
+				r.OK(rule, key, c.ipos(s.ins), "narrowing proved lossless")
+				continue
+			}
+			if len(s.relFacts) > 0 {
+				related++
+				r.Bad(rule, key, c.ipos(s.ins), fmt.Sprintf("the function bounds this quantity (%s) but the checks in force do not imply that it fits the %s-bit length field it is narrowed to: a length can wrap on the wire", strings.Join(s.relFacts, "; "), strings.TrimPrefix(s.what, "narrow")))
+				continue
+			}
+			if wasProved[key] {
+				r.Bad(rule, key, c.ipos(s.ins), "this narrowing was proved lossless on the reviewed tree and no longer is: the bound that made the length fit its wire field is gone or weaker")
+				continue
+			}
+			unrel++
+		}
+	}
+	r.Note(rule, "unchecked-narrowings", "", fmt.Sprintf("%d narrowing(s) of quantities their function never bounds: not decided", unrel))
+	r.Floor(rule, n, 20)
+	_ = related
+}
+
+// ruleCanonicalHelloReturned (C18): a hello message supplied by a user hook is re-encoded and
+// decoded into a fresh value, and that decoded value - never the hook's own object - is what the
+// handshake continues with: what is sent, hashed and negotiated over is then a fixed point of
+// decode/encode and shares no memory with the hook. Every function that canonicalises returns, on
+// success, exactly the fresh target it handed to the canonicaliser.
+func ruleCanonicalHelloReturned(c *Ctx, r *Report) {
+	const rule = "canonical-hello-returned"
+	n := 0
+	for _, s := range c.CallsTo(nameIs("internal/negotiation.canonicalize")) {
+		call, ok := s.Call.(*ssa.Call)
+		if !ok || len(call.Call.Args) < 2 {
+			continue
+		}
+		fn := s.Fn
+		r.Sites += len(fn.Blocks)
+		n++
+		target := call.Call.Args[1]
+		if mi, ok := target.(*ssa.MakeInterface); ok {
+			target = mi.X
+		}
+		_, fresh := target.(*ssa.Alloc)
+		src := call.Call.Args[0]
+		if mi, ok := src.(*ssa.MakeInterface); ok {
+			src = mi.X
+		}
+		r.Check(fresh && target != src, rule, short(fn)+":fresh-target", c.ipos(call), "decoded into a fresh value", "the canonical copy is not decoded into a fresh value of its own")
+		succ := possibleSuccessReturns(fn)
+		good := len(succ) > 0
+		where := c.ipos(call)
+		for _, ri := range succ {
+			ret := ri.(*ssa.Return)
+			if !instrReaches(call, ret) {
+				continue
+			}
+			v := unspill(ret.Results[0])
+			if !allLeaves(c.Origins(v, 0), func(l ssa.Value) bool { return l == target }) {
+				good = false
+				where = c.ipos(ret)
+			}
+		}
+		r.Check(good, rule, short(fn)+":returns-canonical", where, "the decoded canonical value is what is returned", short(fn)+" validates the hook's message by re-encoding and decoding it but returns something other than the decoded copy: the handshake continues with the hook's own object (not a decode/encode fixed point, aliasing the hook's memory)")
+	}
+	r.Floor(rule, n, 2)
+}
+
+// ruleNilableLookupChecked (C19, C08): a module function that signals "not found" by returning a
+// nil interface or pointer (and has no error result to carry it) is a lookup whose result must be
+// compared with nil before it is used as a receiver or dereferenced: the identifier looked up comes
+// from serialised state or from the wire.
+func ruleNilableLookupChecked(c *Ctx, r *Report) {
+	const rule = "nilable-lookup-checked"
+	nilable := map[*ssa.Function]bool{}
+	for _, fn := range c.Fns {
+		if len(fn.Blocks) == 0 || fn.Parent() != nil || !inModule(fn) {
+			continue
+		}
+		res := fn.Signature.Results()
+		if res.Len() != 1 {
+			continue
+		}
+		switch res.At(0).Type().Underlying().(type) {
+		case *types.Interface, *types.Pointer:
+		default:
+			continue
+		}
+		if isErrorType(res.At(0).Type()) {
+			continue
+		}
+		hasNil, hasVal := false, false
+		for _, b := range fn.Blocks {
+			if ret, ok := b.Instrs[len(b.Instrs)-1].(*ssa.Return); ok && len(ret.Results) == 1 {
+				if isNilConst(unspill(ret.Results[0])) {
+					hasNil = true
+				} else {
+					hasVal = true
+				}
+			}
+		}
+		if hasNil && hasVal {
+			nilable[fn] = true
+		}
+	}
+	n := 0
+	for _, fn := range c.Fns {
+		if len(fn.Blocks) == 0 || !inModule(fn) {
+			continue
+		}
+		for _, b := range fn.Blocks {
+			for _, in := range b.Instrs {
+				call, ok := in.(*ssa.Call)
+				if !ok || call.Call.StaticCallee() == nil || !nilable[call.Call.StaticCallee()] {
+					continue
+				}
+				// uses of the result as a receiver / dereference
+				for _, ref := range *call.Referrers() {
+					use, isUse := ref.(ssa.Instruction)
+					if !isUse {
+						continue
+					}
+					deref := false
+					switch u := ref.(type) {
+					case *ssa.Call:
+						deref = u.Call.IsInvoke() && u.Call.Value == ssa.Value(call)
+						if !deref && u.Call.StaticCallee() != nil && u.Call.StaticCallee().Signature.Recv() != nil && len(u.Call.Args) > 0 && u.Call.Args[0] == ssa.Value(call) {
+							if _, isPtr := call.Type().Underlying().(*types.Pointer); isPtr {
+								deref = false // pointer-receiver methods may accept nil; not decided
+							}
+						}
+					case *ssa.FieldAddr:
+						deref = u.X == ssa.Value(call)
+					case *ssa.UnOp:
+						deref = u.Op == token.MUL && u.X == ssa.Value(call)
+					}
+					if !deref {
+						continue
+					}
+					n++
+					r.Sites++
+					guarded := false
+					for _, r2 := range *call.Referrers() {
+						bo, ok := r2.(*ssa.BinOp)
+						if !ok || (bo.Op != token.NEQ && bo.Op != token.EQL) || !(isNilConst(bo.X) || isNilConst(bo.Y)) {
+							continue
+						}
+						for _, r3 := range *bo.Referrers() {
+							iff, isIf := r3.(*ssa.If)
+							if !isIf {
+								continue
+							}
+							nonNil := iff.Block().Succs[0]
+							if bo.Op == token.EQL {
+								nonNil = iff.Block().Succs[1]
+							}
+							if len(nonNil.Preds) == 1 && (nonNil == use.Block() || nonNil.Dominates(use.Block())) {
+								guarded = true
+							}
+						}
+					}
+					r.Check(guarded, rule, fmt.Sprintf("%s:%s", short(fn), short(call.Call.StaticCallee())), c.ipos(use), "result compared with nil before use", fmt.Sprintf("the result of %s (nil when the identifier is unknown) is used without a nil check: an unknown identifier in serialised state or on the wire panics", short(call.Call.StaticCallee())))
+				}
+			}
+		}
+	}
+	r.Extra["nilable_lookup_functions"] = len(nilable)
+	r.Floor(rule, n, 1)
 }
